@@ -31,7 +31,7 @@ def plan(tier, seed):
 
 def conclude(agg):
     c = agg['counters']
-    return [f'monitor counter {k} is zero' for k in ('constant_lines_checked', 'port_rows', 'internal_lines', 'glitching_lines', 'cases/cuda', 'cases/cpu')
+    return [f'monitor counter {k} is zero' for k in ('constant_lines_checked', 'port_rows', 'internal_lines', 'glitching_lines', 'cases/cuda', 'cases/cpu', 'captures_at_finite_time')
             if c.get(k, 0) == 0]
 
 
@@ -43,7 +43,13 @@ def check_case(case, ctx):
     n_const = n_glitch = 0
     with ctx.guard('simulation-raises', case):
         ws = WC.make_sim(r)
-        WC.simulate(r, ws)
+        if case.get('cap_time') is None:
+            WC.simulate(r, ws)
+        else:
+            # initial/final value, earliest arrival and latest stabilisation do not depend on the time at which the value is sampled
+            WC.simulate(r, ws, capture=False)
+            ws.c_to_s(time=case['cap_time'])
+            ctx.count('captures_at_finite_time')
         ls = LogicSim(b.c, sims=n, m=8, c_reuse=lo['c_reuse'], strip_forks=lo['strip_forks'])
         rows = []
         for kind, name in b.s_order:
@@ -113,6 +119,7 @@ def run(spec, ctx):
         rng = random.Random(f'C05/{spec["seed"]}/{spec["shard"]}/{i}')
         case = WC.gen_case(rng, multi=False, caps=rng.choice([4, 8, 16, 32, 'perline']))
         case['lsim'] = {'c_reuse': rng.random() < 0.3, 'strip_forks': rng.random() < 0.4}
+        case['cap_time'] = rng.choice([None, None, None, 0.0, 20.25, 74.5, 150.0])
         if rng.random() < 0.6:
             case['c_reuse'] = False
             case['lsim']['c_reuse'] = False
